@@ -73,6 +73,19 @@ defaults:
       tok:
         required: false
 `,
+	// an input named exclude and none named include: the type of `inputs` has a property the matrix
+	// typing removes from its own copy, and no property that makes it take the include path
+	"callx": `on:
+  workflow_call:
+    inputs:
+      exclude:
+        type: string
+      flag:
+        type: boolean
+    secrets:
+      tok:
+        required: false
+`,
 }
 
 var cmpJobs = map[string]cmpItem{
@@ -120,7 +133,7 @@ var cmpJobs = map[string]cmpItem{
 `},
 	"inputs-ref": {body: `    runs-on: ubuntu-latest
     steps:
-      - run: echo ${{ inputs.include }} ${{ inputs.flag }} ${{ inputs.nope }}
+      - run: echo ${{ inputs.include }} ${{ inputs.exclude }} ${{ inputs.flag }} ${{ inputs.nope }}
       - run: echo ${{ inputs.extra }}
       - run: echo ${{ inputs.flag.deep }}
 `},
